@@ -102,8 +102,18 @@ def run(chk):
     samples = []
     for it in range(10 if thorough else 5):
         alpha, wc, tau = rng.choice([0.05, 0.1, 0.3]), rng.choice([1.0, 3.0, 5.0]), rng.choice([0.1, 0.25, 0.7, 1.5])
+        if it in (1, 2):
+            # every run: long times (many inverse cut-offs, and long in absolute units with a slow bath)
+            alpha, wc, tau = [(0.1, 1.0, 60.0), (0.3, 0.05, 150.0)][it - 1]
         corr = oqupy.PowerLawSD(alpha=alpha, zeta=1, cutoff=wc, cutoff_type="exponential", temperature=0.0)
         samples.append((alpha, wc, tau, complex(corr.eta_function(tau)), complex(corr.correlation(tau))))
+        # the same closed form as a search oracle on the implementation (the interval goals make it a kernel-checked statement)
+        x_ = wc * tau
+        eta_cf = alpha * np.log(1 + x_ * x_) + 2j * alpha * (np.arctan(x_) - x_)
+        chk.search_cases += 1
+        if abs(samples[-1][3] - eta_cf) > 1e-6 * max(1.0, abs(eta_cf)):
+            chk.fail("eta-closed-form", f"PowerLawSD(ohmic, exponential cut-off {wc}, T=0).eta_function({tau}) = {samples[-1][3]:.8g}, the closed form "
+                     f"alpha ln(1+x^2) + 2i alpha (atan x - x) gives {eta_cf:.8g}", {"kind": "eta-closed-form", "alpha": alpha, "cutoff": wc, "tau": tau})
         chk.case({"kind": "interval", "alpha": alpha, "cutoff": wc, "tau": tau}, ("interval", alpha, wc, tau))
     ngoals = interval_goals(chk, samples)
     chk.count("interval_goals", ngoals)
